@@ -192,12 +192,11 @@ def _judge_scripted(case, obs, predrawn=None, stats=None):
         return ('C09:metropolis:number-of-proposals', dict(info, evaluated=len(pts), expected=n_steps + 1))
     if not same_props:
         k = [k for k in range(n_steps) if pts[k + 1].tobytes() != props[k].tobytes()][0]
-        # proposals agree up to step k-1, so the kernel's hidden state differs at step k or the proposal rule does
-        hidden = pts[k + 1] - sig * Z[k]
-        prev = p0 if k == 0 else states[k - 1]
-        if np.allclose(hidden, prev, rtol=0, atol=1e-9):
-            return ('C09:metropolis:proposal-not-previous-plus-sigma-normal', dict(info, step=k + 1))
-        return ('C09:metropolis:accept-decision-differs-from-reference', dict(info, step=k))
+        # proposals agree up to step k-1.  If proposal k is (some earlier evaluated point) + sigma * z_k the kernel sits
+        # on another state than the reference (an earlier accept decision differs); otherwise the proposal rule differs
+        if any(np.allclose(c + sig * Z[k], pts[k + 1], rtol=0, atol=1e-9) for c in pts[:k + 1]):
+            return ('C09:metropolis:accept-decision-differs-from-reference', dict(info, step=k))
+        return ('C09:metropolis:proposal-not-previous-plus-sigma-normal', dict(info, step=k + 1))
     return ('C09:metropolis:accept-decision-differs-from-reference', info)
 
 
@@ -216,7 +215,15 @@ def _new_stats(case):
 def run_mtree(case):
     """Complete tree of answer sequences (below case['root']) of one Metropolis configuration."""
     body = _scripted_body(case)
-    explore.determinism_selftest(body, list(case.get('root', [])) + [1])
+    prefix = list(case.get('root', [])) + [1]
+    try:
+        explore.determinism_selftest(body, prefix)
+    except explore.ReplayDivergence:
+        # the scripted target is pure python and deterministic, so two differing replays of the same seed and the
+        # same answers are a behaviour of the kernel -- and determinism in the seed is part of this property
+        r = run_mdet(dict(case, choices=prefix))
+        r.update(witness_kind='mdet', witness_choices=prefix)
+        return r
     predrawn = R.predraw_A(case['seed'], case['dim'], case['n'] + case['w'])
     stats = _new_stats(case)
 
@@ -238,6 +245,23 @@ def run_mtree(case):
                                                            n_violating_sequences=len(st['violations'])))}
         res['witness_choices'] = choices
     return res
+
+
+@guarded('C09')
+def run_mdet(case):
+    """Two executions of the same seed and the same scripted answers must give the same chain."""
+    body = _scripted_body(case)
+    a = explore.run_once(body, list(case['choices'])).obs
+    np.random.rand(3)                  # the global generator is not an input of the kernel
+    b = explore.run_once(body, list(case['choices'])).obs
+    if a['exc'] or b['exc']:
+        return run_mseq(case)
+    if np.asarray(a['got']).tobytes() != np.asarray(b['got']).tobytes() or \
+            [p.tobytes() for p in a['pts']] != [p.tobytes() for p in b['pts']]:
+        return bad('C09:metropolis:not-deterministic-in-seed',
+                   {'answers': _fmt(a['ans']), 'first_run': _fmt(a['got']), 'second_run': _fmt(b['got']),
+                    'first_points': _fmt(a['pts']), 'second_points': _fmt(b['pts'])})
+    return ok(outcome='deterministic')
 
 
 @guarded('C09')
@@ -428,7 +452,7 @@ def run_moments(case):
             chain = nuts(n + warm, p0, tfn, gfn, n_adapt=warm, seed=seed)[warm:]
     chain = np.asarray(chain)
     if chain.shape != (n, dim):
-        return bad('C09:%s:wrong-number-of-states' % case['sampler'], {'shape': list(chain.shape)})
+        return bad('C09:moments:%s:wrong-number-of-states' % case['sampler'], {'shape': list(chain.shape)})
     rows = []
     for j in range(dim):
         x = chain[:, j]
@@ -451,7 +475,7 @@ def run_moments(case):
               moments_rows_beyond_3_mcse=int(zmax > 3))
 
 
-RUNNERS = {'mtree': run_mtree, 'mseq': run_mseq, 'mreal': run_mreal, 'nuts': run_nuts, 'moments': run_moments}
+RUNNERS = {'mtree': run_mtree, 'mseq': run_mseq, 'mdet': run_mdet, 'mreal': run_mreal, 'nuts': run_nuts, 'moments': run_moments}
 
 
 def replay(case):
@@ -545,13 +569,13 @@ def _moment_cases(ctx):
 
 
 def _record_tree(ctx, case, res, section):
-    if 'evals' not in res:            # an exception escaped from the code under test (guarded)
-        ctx.record(case, res, section)
-        return
     if res.get('viol') and 'witness_choices' in res:
         wcase = {k: v for k, v in case.items() if k != 'root'}
-        wcase.update(kind='mseq', choices=res['witness_choices'])
+        wcase.update(kind=res.get('witness_kind', 'mseq'), choices=res['witness_choices'])
         case = wcase
+    if 'evals' not in res:            # no tree was explored (exception escaped from the kernel / self-test verdict)
+        ctx.record(case, res, section)
+        return
     n_out = res.pop('n_outcomes', 0)
     ctx.extra['max_choice_depth'] = max(ctx.extra.get('max_choice_depth', 0), res.pop('max_depth', 0))
     ctx.record(case, res, section)
